@@ -872,7 +872,8 @@ class ThreadEmitter:
                 if (norm(g.ret), tuple(norm(t) for t, _ in g.params)) == want and not self.excluded(a):
                     cands.append((G.fnid[a], g))
             if fp.c is not None:
-                cands = [(fid, g) for (fid, g) in cands if fid == fp.c]      # callee known at translation time
+                # callee known at translation time: taken by identity even if it is called through a cast to another pointer type
+                cands = [(G.fnid[a], M.funcs[a]) for a in sorted(G.addr_taken) if G.fnid.get(a) == fp.c and a in M.funcs and M.funcs[a].defined and not self.excluded(a)]
                 if len(cands) == 1:
                     cands = [(None, cands[0][1])]
                     fp = None
@@ -1113,6 +1114,14 @@ class ThreadEmitter:
 def generate(ll_path, cfg):
     M = parse_module(open(ll_path).read())
     G = Gen(M, cfg)
+    # pass 1 creates every stack object (allocas of all function instances of all threads); pass 2 emits the code with the
+    # complete object table, so that an access in one thread can resolve to a stack object of a thread emitted later
+    for tid, th in enumerate(cfg['threads']):
+        ThreadEmitter(G, tid, th, th).build()
+    G.pass2 = True
+    G.stack_seq = {}
+    G.statics = []
+    G.warnings = []
     threads = []
     for tid, th in enumerate(cfg['threads']):
         T = ThreadEmitter(G, tid, th, th)
